@@ -961,7 +961,7 @@ class C13(WorkerProp):
             base = "recv" if "x" in flags else "srv"
             for opts in [(), (("blksize", 8),), (("blksize", 16), ("windowsize", 2)), (("windowsize", 3), ("tsize", 99))]:
                 for nb in ([1, 2, 3] if tier == "quick" else [0, 1, 2, 3, 4, 5, 7]):
-                    fs = "%s/old=%s" % (base, "0102")
+                    fs = "%s/old=%s" % (base, rng.choice(["0102", "gen:100:9", "gen:100:9"]))
                     L.append("abort %s %s %s %s %d" % (root, flags, fs, rq("wrq", rng.choice([b"up", b"sub/up", b"old"]), opts).hex(), nb))
                     if "o" in flags:
                         # --overwrite: the aborted upload replaces a file that existed before (it is truncated at once)
